@@ -38,10 +38,12 @@ def getCollectionValue(collection, what, pos=None):
     elif collection.isMap() and what == "keys":
         return sorted(collection.value.keys())
     elif collection.isMap() and what == "values":
-        return [collection.value[k] for k in sorted(collection.value.keys())]
+        return [value for key, value in collection.getSortedEntries()]
     elif collection.isMap():
-        return convertEntries({k: collection.value[k]
-                               for k in sorted(collection.value.keys())})
+        result = []
+        for key, value in collection.getSortedEntries():
+            result.append(ValueList().addItem(key).addItem(value))
+        return result
     elif collection.isObject() and what == "values":
         return list(collection.value.values())
     elif collection.isObject() and what == "entries":
@@ -107,8 +109,8 @@ def invoke(fn, names_, args, environment, pos):
         if isinstance(arg, NodeSpread):
             argvalue = arg.evaluate(environment)
             if argvalue.isMap():
-                for key in argvalue.getSortedKeys():
-                    values.append(argvalue.value[key])
+                for key, value in argvalue.getSortedEntries():
+                    values.append(value)
                     if key.isString():
                         names.append(key.value)
                     else:
@@ -956,7 +958,7 @@ class NodeFor:
             return result
 
         if lst.isMap():
-            values = [(k, lst.value[k]) for k in sorted(lst.value.keys())]
+            values = lst.getSortedEntries()
             result = TRUE
             for key, value in values:
                 val = value
